@@ -115,10 +115,12 @@ class SQLImpl:
                 pass
         if not cleaned:
             return None, None, []
+        # the implementation may mutate the filter objects: keep pristine copies for the model/oracle
+        pristine = [q.model_copy(deep=True) for q in cleaned]
         kwargs = {} if default_limit is None else {"default_limit": default_limit}
         sub = self.storage.subscription_class(self.storage, "sub", cleaned, queue=asyncio.Queue(), **kwargs)
         if not sub.prepare():
-            return None, None, cleaned
+            return None, None, pristine
         text = str(sub.query)
 
         async def go():
@@ -127,4 +129,4 @@ class SQLImpl:
                 out.append(ev)
             return out
         events = self.run(go())
-        return events, text, cleaned
+        return events, text, pristine
